@@ -85,6 +85,17 @@ def _decls(cls):
                 continue
             if isinstance(v, _BaseChildElement) and hasattr(v, "_nsptagname"):
                 out.setdefault(v._nsptagname, {"decl": v, "methods": set()})["methods"].add(name)
+    # the declaration also names its methods: a generated method that no longer closes over the declaration (after
+    # a refactor of the generator) is still that child's method
+    for info in out.values():
+        for attr in ("_insert_method_name", "_add_method_name", "_remove_method_name", "_get_or_add_method_name",
+                     "_get_or_change_to_method_name", "_public_add_method_name"):
+            try:
+                mname = getattr(info["decl"], attr)
+            except Exception:
+                continue
+            if isinstance(mname, str) and callable(getattr(cls, mname, None)):
+                info["methods"].add(mname)
     return out
 
 
@@ -411,6 +422,12 @@ def adder_cases(tier):
     for ctx in pctx:
         for ad in ("add_run", "add_line_break", "text", "font", "alignment", "clear"):
             yield {"b": "para", "ctx": ctx, "adder": ad}
+    # paragraph spacing: a choice (percent | points) inside a:lnSpc / a:spcBef / a:spcAft, re-assigned with the other
+    # kind through the API and over a PowerPoint-written member
+    for ctx in ([], ["pPr"], ["pPr", "r"], ["r", "endParaRPr"]):
+        for ad in ("line_spacing_pct_pts", "line_spacing_pts_pct", "space_before_foreign_pct", "space_after_foreign_pct",
+                   "line_spacing_foreign_pts"):
+            yield {"b": "para", "ctx": ctx, "adder": ad}
     body_ctx = [[], ["p"], ["p", "p"]]
     for lst in (False, True):
         for ctx in body_ctx:
@@ -516,11 +533,43 @@ def check_adder(case):
             elif ad == "clear":
                 p.clear()
                 p.add_run()
+            elif ad.startswith("line_spacing") or ad.startswith("space_"):
+                from pptx.util import Pt
+                if "foreign" in ad:
+                    pPr = pe.get_or_add_pPr()
+                    tag = {"space_before": "spcBef", "space_after": "spcAft", "line_spacing": "lnSpc"}[ad.rsplit("_", 2)[0]]
+                    member = '<a:spcPct val="50000"/>' if ad.endswith("pct") else '<a:spcPts val="1200"/>'
+                    el = parse_xml('<a:%s xmlns:a="%s">%s</a:%s>' % (tag, NS_A, member, tag))
+                    # a:lnSpc, a:spcBef, a:spcAft lead the children of a:pPr in this order
+                    pos = {"lnSpc": 0, "spcBef": 0, "spcAft": 0}[tag]
+                    pPr.insert(pos, el)
+                if ad == "line_spacing_pct_pts":
+                    p.line_spacing = 1.5
+                    p.line_spacing = Pt(14)
+                elif ad == "line_spacing_pts_pct":
+                    p.line_spacing = Pt(14)
+                    p.line_spacing = 1.5
+                elif ad == "space_before_foreign_pct":
+                    p.space_before = Pt(6)
+                elif ad == "space_after_foreign_pct":
+                    p.space_after = Pt(6)
+                elif ad == "line_spacing_foreign_pts":
+                    p.line_spacing = 0.9
         except Exception as e:
             raise Violation(key + ":raises=%s" % type(e).__name__, "%s on a:p [%s] raised %r" % (case["adder"], _fmt(before), e))
         after = _seq(pe)
         if not model.accepts(after):
             raise Violation(key + ":order", "%s on <a:p> holding [%s] gave [%s]" % (case["adder"], _fmt(before), _fmt(after)))
+        pPr = pe.find("{%s}pPr" % NS_A)
+        if pPr is not None:
+            if not _model((NS_A, "CT_TextParagraphProperties")).accepts(_seq(pPr)):
+                raise Violation(key + ":order-pPr", "%s gave <a:pPr> [%s]" % (case["adder"], _fmt(_seq(pPr))))
+            for sp in pPr:
+                if etree.QName(sp).localname in ("lnSpc", "spcBef", "spcAft"):
+                    kids = _seq(sp)
+                    if len(kids) != 1 or not _model((NS_A, "CT_TextSpacing")).accepts(kids):
+                        raise Violation(key + ":choice-spacing", "%s gave <a:%s> [%s]: exactly one of a:spcPct / a:spcPts "
+                                        "is allowed" % (case["adder"], etree.QName(sp).localname, _fmt(kids)))
         return "ok"
     if b == "body":
         tb = slide.shapes.add_textbox(0, 0, 10, 10)
